@@ -38,7 +38,8 @@ def run(ctx):
     ctx.assume("copy mode: every generated tape with strings in Strings.B carries an ARBITRARY (symbolic) Message, so each T1/T3/T6/Z1 verdict "
                "already holds for any later overwrite of the input buffer (K2); that the parser tags every string with the buffer flag in "
                "copy mode is lemma S6 (stage 2)")
-    ctx.assume("values delivered by ParseNDStream: pool/buffer discipline is part of C09 (Q2)")
+    ctx.assume("values delivered by ParseNDStream: pool/buffer discipline is part of C09 (Q2); that every chunk is parsed with string copying on, whether "
+               "its ParsedJson is fresh or came through the reuse channel, is Q2.copy (E3 extraction of the real worker closure), run below")
     ls = k1_lemmas(ctx.tier)
     ls.append(u2_lemma())
     # K2: readers on copy-mode tapes with arbitrary Message contents
@@ -47,3 +48,12 @@ def run(ctx):
     # mode the exposed document is the same
     ls += [l for l in lemmas_stage2.p3_lemmas(ctx.tier, ndjson=(0,)) if ".K3" in l.name or (ctx.tier != "quick" and ".K2" in l.name)]
     run_lemmas(ctx, ls)
+    if not ctx.only or "Q2.copy" in ctx.only:
+        from . import C09
+        lvl = ctx.level
+        ctx.q2_copy_only = True
+        try:
+            C09.run(ctx)
+        finally:
+            ctx.q2_copy_only = False
+            ctx.level = lvl
